@@ -34,6 +34,15 @@ Plan gen_c21(sk::Rng& r, Tier) {
         op.a = {static_cast<std::int64_t>(r.below(3)), static_cast<std::int64_t>(r.below(4)), kind, gap, r.pick<std::int64_t>({3, 4, 4}), static_cast<std::int64_t>(r.below(3))};
         p.ops.push_back(op);
     }
+    if (r.chance(1, 5)) {
+        // four rejections of one peer from a clean point: the first is more than 120 s old when the third arrives, the last three lie within
+        // a minute; then a valid announce, which must find the peer locked out
+        const std::int64_t a = r.pick<std::int64_t>({70, 100, 115}), b = r.pick<std::int64_t>({55, 60, 75}), c = r.pick<std::int64_t>({3, 10, 20});
+        const std::int64_t peer = static_cast<std::int64_t>(r.below(3)), chunk = static_cast<std::int64_t>(r.below(4));
+        auto push = [&](std::int64_t kind, std::int64_t gap_ms) { Op o; o.k = "announce"; o.a = {peer, chunk, kind, gap_ms, 4, static_cast<std::int64_t>(r.below(3))}; p.ops.push_back(o); };
+        const std::int64_t bad = r.range(1, kKinds - 1);
+        push(bad, 302000); push(bad, a * 1000); push(bad, b * 1000); push(bad, c * 1000); push(0, r.pick<std::int64_t>({2000, 30000, 100000}));
+    }
     return p;
 }
 
@@ -199,7 +208,15 @@ void exec_c21(const Plan& p, Ctx& ctx) {
                     L.fresh.push_back(cur);
                     if (L.fresh.size() == 3) {
                         if (L.fresh[2].e - L.fresh[0].s < 119 * kSec) { L.definite = true; L.s3 = L.fresh[2].s; L.e3 = L.fresh[2].e; ctx.boundary("three_rejections_in_a_row"); }
-                        else { L.tracking = false; ctx.probe("three_rejections_not_within_120s"); }
+                        else if (L.fresh[2].s - L.fresh[0].e <= 121 * kSec) { L.tracking = false; ctx.probe("three_rejections_at_the_edge_of_120s_not_judged"); }  // the node may or may not have locked the peer out: not judged until the next clean point
+                        else {
+                            // the window slides: the oldest of the three is more than 120 s old and no longer counts; the two newer ones still do
+                            // (no lockout has begun since the clean point and nothing was accepted in between, so no reading can have dropped them)
+                            L.fresh.erase(L.fresh.begin());
+                            if (L.fresh[1].s - L.fresh[0].e > 121 * kSec) L.fresh.erase(L.fresh.begin());
+                            else if (L.fresh[1].e - L.fresh[0].s >= 119 * kSec) { L.tracking = false; ctx.probe("three_rejections_at_the_edge_of_120s_not_judged"); }
+                            ctx.probe("three_rejections_not_within_120s_window_slides");
+                        }
                     }
                 } else if (L.definite && cur.s > L.e3 && cur.e < L.s3 + 179 * kSec) ctx.probe("rejected_while_locked_out");
                 L.any_rejection = true;
@@ -223,7 +240,7 @@ Scenario make_c21() {
     s.stub_components = {"OS: threads -> fibers, sockets -> simulated TCP, clock, entropy", "announcing peers are scripted processes; PoW solved by an independent reference"};
     s.assumptions = {"one-directional ('only if'): acceptance of every admissible announce is not required",
                      "handling time of an announce is only known to lie between send and barrier completion; spacing rules are judged with the widest possible gap, so boundary-exact spacings are generated but not flagged",
-                     "the lockout rule is judged only from a clean point (no rejection in the preceding 301 s) for the first three rejections with no acceptance in between; whether rejections during a lockout count again and whether an acceptance resets the count are left open by the statement"};
+                     "the lockout rule is judged from a clean point (no rejection in the preceding 301 s) for rejections with no acceptance in between, with a sliding 120 s window until the first lockout begins; whether rejections during a lockout count again and whether an acceptance resets the count are left open by the statement"};
     s.rule = "plan = throttle triple, PoW difficulty, min TTL, 1..3 peers, network knobs + 3..22 announces (12 kinds: admissible + each inadmissibility) with gaps around the interval/window/120 s/180 s boundaries; non-trivial = acceptances spaced near a throttle boundary or three rejections in a row; distinct = plan hash";
     s.gen = gen_c21; s.exec = exec_c21; s.kernel_knobs = rig_knobs;
     s.quick_runs = 2500; s.thorough_runs = 100000; s.quick_secs = 50; s.thorough_secs = 900;
